@@ -14,11 +14,20 @@ RULE = ("seeded generator: histories of 10-70 operations on udpSessionManager.Ru
         "every way a session can end (idle expiry, reply-loop read error, SendMessage error, dial failure, hook failure, fragment-only expiry) followed at "
         "once by a datagram with the same id and no other id in between, sleeps chosen around the idle timeout and the 1 s sweep (timeout-1, timeout, "
         "timeout+1, 999/1000/1001 ms ...), bursts of operations issued without waiting for quiescence (real interleavings of receive loop, "
-        "reply loops and sweeper), final connection loss. The boundary log (fake udpIO / UDPConn / logger calls with fake-clock times) is "
+        "reply loops and sweeper), final connection loss; datagrams from the remote of 0, 1, 2, 7, 9, 64 bytes besides the 8-byte tagged ones "
+        "(ReadFrom returning 0 with a nil error is an EMPTY DATAGRAM; the tag of a short datagram travels in its source address), alone and as "
+        "keep-alives that are a session's only traffic for longer than timeout + two sweeps; FINAL cleanup with 20-40 sessions (8-14 with a slow "
+        "logger), some idle past the timeout at the sweep tick that follows the connection loss, some with traffic in either direction shortly "
+        "before, some fragment-only, the connection lost 1-300 ms before that tick and the first socket Close() calls of cleanup(false) taking "
+        "up to 10-2500 ms of the fake clock (and / or slow logger.Close), so that one to three sweeps run INSIDE the final cleanup (two cleanup() "
+        "calls overlapping). The boundary log (fake udpIO / UDPConn / logger calls with fake-clock times) is "
         "replayed against the Coq LTS (nondeterministic-automaton simulation with tau-closure) and must end in a terminal state with an "
         "empty table. The harness verdict (implementation alone) includes: after a session's Close event has settled the next complete datagram of "
         "that id must call the hook, log New, dial a new socket and be written to it; no dial returns a socket for a session already reported closed; "
-        "Count() at every quiescent point equals the number of ids with a live session; every socket closed exactly once; no goroutine left at bubble exit. Non-trivial = the history contains an idle expiry, a session id reused on a new socket, or an injected fault. "
+        "Count() at every quiescent point equals the number of ids with a live session; every socket closed exactly once; no goroutine left at bubble exit; "
+        "every datagram ReadFrom returned with a nil error (any length, 0 included) is handed to SendMessage with the owner's session id, the same tag "
+        "and the same length before the reply loop reads again, and counts as traffic of the session (a socket with such a read within the timeout "
+        "of a sweep is not closed by it). Non-trivial = the history contains an idle expiry, a session id reused on a new socket, or an injected fault. "
         "Distinct = distinct JSON case.")
 ASSUMPTIONS = [
     "a closed UDPConn returns an error from every later ReadFrom/WriteTo, and ReadFrom blocked on it returns (socket semantics, modelled in the LTS guards)",
@@ -27,6 +36,11 @@ ASSUMPTIONS = [
     "dialed: the sweeper then waits for connLock, a mutex wait is not a durable block for testing/synctest, so the fake dial returns at that fake instant "
     "(after giving the sweeper real time to reach CloseWithErr) instead of later",
     "fragment reassembly abstracted to complete message / ignored fragment (C05); addresses, hook rewrites and the decision cache are C08's",
+    "a slow socket Close() is exercised only where no other goroutine can want the entry's connLock while the fake sleeps (a sync.Mutex wait is not a "
+    "durable block for testing/synctest): calls made by the receive loop's goroutine after the connection was lost, reply loop parked in ReadFrom, "
+    "sleep cut 1 ms before the first tick at which the entry counts as idle; the close takes effect when the sleep is over",
+    "the acceptor takes the table delete that ends CloseWithErr at once after the connection loss when the history has no slow logger.Close "
+    "(nobody looks an id up any more; closed entries are dropped from cleanup snapshots anyway): a reduction, every reduced run is a run of the LTS",
 ]
 TRUSTED = ["modelled rather than verified: core/server/udp.go session manager, entry, reply loop, sweeper (hand-written LTS in coq/model/C07_UDPSessions.v); "
            "goroutine exit is observed (synctest bubble exit), the model proves 'no program counter left running'"]
@@ -433,7 +447,7 @@ def run(ctx):
     import random
     import sys
     global PER_SHARD
-    PER_SHARD = 15 if ctx.tier == "quick" else 30      # quick: 5 shards side by side; thorough: few large shards
+    PER_SHARD = 10 if ctx.tier == "quick" else 30      # quick: 8 shards side by side; thorough: few large shards
     extra = []
     race_cov = None
     if ctx.tier == "thorough":
@@ -484,6 +498,10 @@ LEVEL_TEXT = ("Machine-checked Coq theorems over a hand-written labelled transit
 LEVEL_NOTE = ("Trusted: Coq kernel + vm_compute; hand-written LTS (tie is sampled trace acceptance + regenerated Params); python/Go glue. "
               "initConn (closed check, hook, New, UDP(), socket install under connLock) is ONE action of the LTS taken when the dial returns; time and sweeps "
               "pass with the receive loop inside it (acceptor: quiescent at RInit), so a log in which the entry is closed inside the dial has no run. "
+              "ReadFrom's result carries the datagram length n (any n >= 0; ARead e ok n, PGot n, PSend n, ERead / ESend with n): C07_read_any_length, "
+              "C07_read_is_traffic, C07_read_is_relayed, C07_relay_not_skipped state that an empty datagram is stamped and relayed like any other. "
+              "A slow socket Close() in the final cleanup is the one action AClose1 taken when it takes effect (connLock is held across conn.Close()); "
+              "time and sweeps pass with the receive loop at RClose (todo, None) true. "
               "A history that does not finish in 30 s of real time (mutex wait on a sleeping holder, self-deadlock) is reported as a violation with its replay. "
               "No axioms. Not proved: real time.Ticker accuracy (theorems are relative to tick times); goroutine exit is observed by synctest, "
               "not proved; preemption inside one atomic section.")
